@@ -310,7 +310,7 @@ PROPS["C16"] = {"gen": lambda tier: c16_simple(tier) + c16_mg(tier) + c16_wg(tie
 
 
 KIND_NAMES = {0: "dir", 1: "und", 2: "dmg", 3: "umg", 4: "dwg", 5: "uwg"}
-EQ_Q = {0: "eq", 1: "ne", 2: "sym", 3: "refl", 4: "copyctor", 5: "copyassign"}
+EQ_Q = {0: "eq", 1: "ne", 2: "sym", 3: "refl", 4: "copyctor", 5: "copyassign", 6: "copyctor-indep", 7: "copyassign-indep"}
 
 
 def eq_ob(kind, lt, ng, nh, q, **kw):
@@ -330,10 +330,10 @@ def c06(tier):
     if tier == "thorough":
         configs += [(0, 4), (0, 5), (1, 3), (1, 4), (1, 5), (0, 3)]
     for kind, lt in configs:
-        for q in (0, 1, 2, 3, 4, 5):
-            if tier == "quick" and q in (1, 2, 5) and not (kind in (0, 1) and lt == 1):
+        for q in (0, 1, 2, 3, 4, 5, 6, 7):
+            if tier == "quick" and q in (1, 2, 5, 7) and not (kind in (0, 1) and lt == 1):
                 continue
-            obs.append(eq_ob(kind, lt, 3, 3, q, optional_reach=["same graph"] if q >= 4 else []))
+            obs.append(eq_ob(kind, lt, 3, 3, q))
         for ng, nh in ((2, 3), (2, 2), (1, 1), (0, 0), (0, 1), (3, 2)):
             if tier == "quick" and (ng, nh) in ((1, 1), (0, 1), (3, 2)) and not (kind in (0, 1) and lt == 1):
                 continue
@@ -349,6 +349,76 @@ PROPS["C06"] = {"gen": c06,
     "outside": "graphs above the vertex bound; duplicate (forced) edges; labels beyond the 4-value domains (operator== only uses label equality)",
     "explanation": "g == h is compared with equality of the abstractions (vertex count, edge set, labels) of two independently chosen valid representations - different list orders and different histories are different symbolic choices. History independence follows because every reachable state satisfies the representation invariant (C01-C05). One operator call per query.",
     "assumptions": ["both states satisfy the class's representation invariant (no orphan label entries) - established inductively by C01-C05"]}
+
+
+REJECT = {  # kind -> {E: (name, takes a pair?)}
+    0: {0: ("addEdge-label-force", 1), 1: ("addEdge-force", 1), 2: ("hasEdge", 1), 3: ("hasEdge-label", 1), 4: ("getOutNeighbours", 0), 5: ("removeEdge", 1), 6: ("getEdgeLabel", 1), 7: ("setEdgeLabel", 1),
+        8: ("removeVertexFromEdgeList", 0), 9: ("assertVertexInRange", 0), 10: ("addReciprocalEdge-label", 1), 11: ("addReciprocalEdge", 1), 12: ("getInDegree", 0), 13: ("getOutDegree", 0),
+        20: ("resize-smaller", 0), 21: ("setEdgeLabel-missing", 0), 22: ("getEdgeLabel-missing", 0), 30: ("getSubgraph", 0), 31: ("getSubgraphWithRemap", 0),
+        40: ("findVertexPredecessors", 0), 41: ("findAllVertexPredecessors", 0), 42: ("findGeodesics", 1), 43: ("findAllGeodesics", 1), 44: ("findGeodesicsFromVertex", 0), 45: ("findAllGeodesicsFromVertex", 0),
+        32: ("getSubgraph-badsecond", 0), 33: ("getSubgraphWithRemap-badsecond", 0),
+        46: ("findPathToVertexFromPredecessors", 1), 47: ("findMultiplePathsToVertexFromPredecessors", 1)},
+    1: {0: ("addEdge-label-force", 1), 1: ("addEdge-force", 1), 2: ("hasEdge", 1), 3: ("hasEdge-label", 1), 4: ("getOutNeighbours", 0), 5: ("removeEdge", 1), 6: ("getEdgeLabel", 1), 7: ("setEdgeLabel", 1),
+        8: ("removeVertexFromEdgeList", 0), 9: ("assertVertexInRange", 0), 10: ("getNeighbours", 0), 11: ("getDegree", 0),
+        20: ("resize-smaller", 0), 21: ("setEdgeLabel-missing", 0), 22: ("getEdgeLabel-missing", 0), 30: ("getSubgraph", 0), 31: ("getSubgraphWithRemap", 0),
+        40: ("findVertexPredecessors", 0), 41: ("findAllVertexPredecessors", 0), 42: ("findGeodesics", 1), 43: ("findAllGeodesics", 1)},
+    2: {0: ("addEdge-force", 1), 1: ("addMultiedge-force", 1), 2: ("removeEdge", 1), 3: ("removeMultiedge", 1), 4: ("hasEdge", 1), 5: ("getEdgeMultiplicity", 1), 6: ("setEdgeMultiplicity", 1), 7: ("removeVertexFromEdgeList", 0),
+        8: ("getOutNeighbours", 0), 9: ("getOutDegree", 0), 10: ("getInDegree", 0), 11: ("addReciprocalEdge", 1), 12: ("addReciprocalMultiedge", 1), 20: ("resize-smaller", 0)},
+    3: {0: ("addEdge-force", 1), 1: ("addMultiedge-force", 1), 2: ("removeEdge", 1), 3: ("removeMultiedge", 1), 4: ("hasEdge", 1), 5: ("getEdgeMultiplicity", 1), 6: ("setEdgeMultiplicity", 1), 7: ("removeVertexFromEdgeList", 0),
+        8: ("getOutNeighbours", 0), 9: ("getDegree", 0), 20: ("resize-smaller", 0)},
+    4: {0: ("addEdge-weight-force", 1), 1: ("removeEdge", 1), 2: ("getEdgeWeight", 1), 3: ("setEdgeWeight", 1), 4: ("removeVertexFromEdgeList", 0), 5: ("hasEdge", 1), 6: ("getOutNeighbours", 0), 7: ("getInDegree", 0), 8: ("getOutDegree", 0),
+        20: ("resize-smaller", 0), 22: ("getEdgeWeight-missing", 0), 40: ("findGeodesicsDijkstra", 0)},
+    5: {0: ("addEdge-weight-force", 1), 1: ("removeEdge", 1), 2: ("getEdgeWeight", 1), 3: ("setEdgeWeight", 1), 4: ("removeVertexFromEdgeList", 0), 5: ("hasEdge", 1), 6: ("getOutNeighbours", 0), 7: ("getDegree", 0),
+        20: ("resize-smaller", 0), 22: ("getEdgeWeight-missing", 0), 40: ("findGeodesicsDijkstra", 0)},
+}
+
+
+def search_caps(n, nm=None):
+    """capacities for harnesses that run the path searches: queue/stack entries, reserved front zone of std::list for push_front"""
+    nm = max(nm or n, 1)
+    return {"VERIF_LIST_FRONT": nm + 1, "VERIF_LIST_CAP": 2 * nm + 2, "VERIF_QUEUE_CAP": nm * nm + 2, "VERIF_HEAP_CAP": nm * nm + 2}
+
+
+def c07(tier):
+    obs = []
+    ns = (0, 2, 3) if tier == "quick" else (0, 1, 2, 3, 4)
+    for kind, entries in REJECT.items():
+        for lt in ((1,) if kind else (0, 1)) if kind < 2 else (1,):
+            for e, (name, pair) in entries.items():
+                for n in ns:
+                    if tier == "quick" and n == 2 and not (kind == 0 and lt == 1) and e not in (32, 33):
+                        continue
+                    if e >= 20 and e < 30 and n == 0:
+                        continue
+                    if lt == 0 and e in (21, 22, 3, 6, 7):
+                        continue
+                    if e in (46, 47, 32, 33) and n == 0:
+                        continue
+                    if e in (32, 33) and n != 2:
+                        continue
+                    for pos in ((0, 1) if pair else (0,)):
+                        for badv in ((0, 1, 2) if e >= 30 else (None,)):
+                            defs = caps(n, n)
+                            defs.update({"KIND": kind, "LT": lt, "ENTRY": e, "POS": pos})
+                            if e >= 30:
+                                if e >= 40:
+                                    defs.update(search_caps(n))
+                                    defs["VERIF_VEC_CAP"] = max(n, 1) * max(n, 1) + 2 if kind >= 4 else max(n, 1)
+                                defs["BADV"] = badv
+                                if tier == "quick" and badv == 1 and n != 3:
+                                    continue
+                            ob = {"id": "C07/%s%s/n%d/%s%s%s" % (KIND_NAMES[kind], "-nolabel" if (kind < 2 and lt == 0) else "", n, name, ("-arg%d" % pos) if pair else "", "" if badv is None else "-bad%d" % badv),
+                                  "src": "reject.cpp", "defs": defs, "bounds": graph_bounds(defs), "count_ub": True, "optional_reach": [""] if n < 3 else []}
+                            obs.append(ob)
+    return obs
+
+
+PROPS["C07"] = {"gen": c07, "validate_quick": 8,
+    "bounds": {"quick": "all eight classes, every public entry point taking a vertex (incl. getSubgraph(WithRemap) and the path searches), graphs of 0 and 3 vertices (0, 2, 3 for LabeledDirectedGraph<int>); the out-of-range argument is ANY 32-bit value >= n in each argument position (for getSubgraph(WithRemap) and the path searches: the three values size, size+1, UINT_MAX, one sub-query each), the other vertex argument is any 32-bit value, every flag symbolic",
+               "thorough": "0..4 vertices"},
+    "outside": "graphs above the vertex bound; entry points of fileio (C15)",
+    "explanation": "Arbitrary valid state, one call with an out-of-range vertex: the exception class must be std::out_of_range (std::invalid_argument for the three documented cases), the representation must be bit-identical afterwards, and no precondition of the std model / array bound may be violated on the way (an unchecked index is a failed assertion here and an ASan/_GLIBCXX_DEBUG abort on replay).",
+    "assumptions": ["pre-state satisfies the class's representation invariant"]}
 
 
 def obligations(prop, tier):
